@@ -198,6 +198,10 @@ def run(rep, tier, seed):
     rep.coverage["object_positions"] = sum(len(pos[v]) for v in pos)
     if build.translator_ok and os.path.exists(os.path.join(C.COQ, "Model", "Vocab.vo")):
         correspondence(rep, vocab, tier)
+    if "names" in build.rules_aborted:
+        rep.violation("C10:rules:names", "the name rules could not be extracted from the source (%s); the model runs on the pinned table" % build.rules_aborted["names"][:300],
+                      {"kind": "translator", "message": build.rules_aborted["names"], "theorem": "tie of Gen/NameRules.v to the source"},
+                      found_input=any(v[2] for v in rep.violations))
     if not build.translator_ok:
         rep.violation("C10:translator", "the translator rejected the working tree: " + build.translator_msg[-500:],
                       {"kind": "translator", "message": build.translator_msg, "theorem": "all of Props/C10.v"},
